@@ -39,6 +39,18 @@ def main(tier):
     db.AddCategory("verif pipe size", "length", valid_units=["in", "ft", "cm"], default_unit="in", default_value=5.75)
     db.AddCategory("verif cold", "temperature", default_unit="degC", default_value=-2.5)
     db.AddCategory("verif rate", "volume flow rate", default_unit="bbl/d", default_value=1e-3)
+    # units an application registers itself: symbols that contain a fragment the legacy rewrite knows (they are registered, so they are
+    # never rewritten), and a quantity type whose unit was asked about before the category named like the type existed
+    from barril.units.posc import MakeBaseToCustomary, MakeCustomaryToBase
+    for qt_, sym_, k_ in (("volume flow rate", "1000m3/h", 3.6), ("volume flow rate", "1000ft3/h", 127.1), ("mole per time", "lbmole/h", 7.9)):
+        if qt_ in db.quantity_types:
+            db.AddUnit(qt_, "verif " + sym_, sym_, MakeBaseToCustomary(0.0, k_, 1.0, 0.0), MakeCustomaryToBase(0.0, k_, 1.0, 0.0))
+    db.AddUnitBase("verif quantity", "verif base", "vqb")
+    db.AddUnit("verif quantity", "verif second", "vq2", MakeBaseToCustomary(0.0, 2.0, 1.0, 0.0), MakeCustomaryToBase(0.0, 2.0, 1.0, 0.0))
+    P.outcome(db.GetDefaultCategory, "vqb")
+    P.outcome(Scalar, 1.0, "vq2")                  # (rightly refused: no category yet)
+    P.outcome(ObtainQuantity, "vqb")
+    db.AddCategory("verif quantity", "verif quantity")
     proj = export.project_db(db)
     with open(table, "w") as f:
         json.dump(proj, f)
